@@ -41,17 +41,29 @@ ASSUMPTIONS = ["the wrapped learner is deterministic (ExactLearner, LogisticRegr
                "theorem C19_CorrelationRemover_width_latch)",
                "adversarial estimators: backend='torch', warm_start=False for the property; warm_start=True is "
                "modelled as continuing and checked on a few histories",
-               "KNOWN FINDING F7a: ExponentiatedGradient.fit overwrites the constructor parameter nu when it is None"]
+               "KNOWN FINDING F7a: ExponentiatedGradient.fit overwrites the constructor parameter nu when it is None",
+               "KNOWN FINDING: a torch.nn.Module passed as predictor_model / adversary_model is trained IN PLACE "
+               "(refit and clone-after-fit start from trained weights); history independence of the adversarial "
+               "estimators is proved for networks given as lists (premise user_net p = None) and refuted otherwise",
+               "D2 differs from D1 structurally in rotation: other set of sensitive groups (subset / superset), "
+               "same columns in another order, same rows with other labels; probes are presented in the column "
+               "order of the last fit",
+               "GridSearch has no objective parameter (it always builds constraints.default_objective()): the "
+               "user-supplied objective object is exercised on ExponentiatedGradient only"]
 RULE = ("cases: per (family, configuration, history prefix) ALL histories over {Fit D1, Fit D2, Predict, "
         "PickleRoundTrip, Clone} up to length 3 (quick) / 4 (thorough), each followed by Fit D; Predict, random small "
         "data sets per case; observables per operation: exception class, fit(...) is est, get_params(deep=False) by "
         "identity and public configuration, fingerprint equal to that of a fresh estimator fitted once, predict "
         "repeatable and pure, pickle round trip, clone unfitted; non-trivial = the reference fits on D1 and D2 are "
-        "distinguishable and the case contains a refit")
+        "distinguishable and the case contains a refit; D2 vs D1 rotates through 7 structural variants (group "
+        "sets, column order, same rows / other labels); extra configurations with shorter histories: EG with a "
+        "user-supplied ErrorRate objective object, CorrelationRemover on named DataFrame columns in another order, "
+        "adversarial predictor given as a torch Module with BatchNorm1d + Dropout (state_dict bit-identical across "
+        "predict, consecutive predictions equal, equal to a never-predicted twin)")
 EXHAUSTIVE = {"quick": True, "thorough": True}
 PARTIAL = ["C19_history_independent_ExponentiatedGradient_partial", "C19_params_constant_ExponentiatedGradient_partial",
            "C19_clone_fresh_ExponentiatedGradient_partial", "C19_nu_overwritten_refuted",
-           "C19_ExponentiatedGradient_model_refuted"]
+           "C19_ExponentiatedGradient_model_refuted", "C19_Adversarial_user_module_refuted"]
 
 STD_OPS = ["F1", "F2", "P", "K", "C"]
 ADV_OPS = ["F1", "F2", "P", "C"]
